@@ -227,3 +227,132 @@ Print Assumptions C13_avx2_read_write_le_be.
 Print Assumptions C13_storage_views_little_endian.
 Print Assumptions C13_sse_x4_transpose4_is_transpose.
 Print Assumptions C13_sse_x4_to_scalars_lane_order.
+
+(* ---- added by work package ppv-wide: data movement of the x86 wide types ---- *)
+From CC Require Model.PpvSoft Model.PpvSoftAssign.
+From CC Require Import Proofs.PpvWideLift Proofs.PpvWideMove Proofs.PpvWideBytes Proofs.PpvWideTie.
+
+(** x86 wide types (soft.rs x2<W,G> / x4<W> over registers): [wide16 n v] = the list of [n]
+    well-formed 16-byte registers (SSE-family types), [wide32 2 v] = two 32-byte registers
+    (u32x4x4_avx2); image = [concat v]; [lanes16] cuts an image into 128-bit lanes. *)
+Theorem C13_sse_wide_lanes_order : forall n v, wide16 n v ->
+  xn_to_lanes v = lanes16 (concat v) /\ concat (xn_from_lanes v) = concat v /\
+  xn_from_lanes (xn_to_lanes v) = v /\ xn_to_lanes (xn_from_lanes v) = v /\
+  (forall k, In k [4; 8; 16]%nat -> words_le k (concat v) = concat (map (words_le k) (xn_to_lanes v))).
+Proof. exact sse_wide_lanes_order. Qed.
+
+Theorem C13_sse_wide_from_lanes_order : forall l : list reg, Forall (wf 16) l ->
+  concat (xn_from_lanes l) = concat l /\ xn_to_lanes (xn_from_lanes l) = l /\
+  wide16 (length l) (xn_from_lanes l).
+Proof. exact sse_wide_from_lanes_order. Qed.
+
+(** Vec2<W> (n = 2) / Vec4<W> (n = 4): every index *)
+Theorem C13_sse_wide_extract_insert : forall n v w i, wide16 n v -> wf 16 w ->
+  xn_extract v i = (if i <? N.of_nat n then Ok (nth (N.to_nat i) (lanes16 (concat v)) []) else Panic) /\
+  omap (@concat N) (xn_insert v w i)
+  = (if i <? N.of_nat n then Ok (concat (upd (N.to_nat i) w (lanes16 (concat v)))) else Panic) /\
+  (forall r, xn_insert v w i = Ok r -> wide16 n r).
+Proof. exact sse_wide_extract_insert. Qed.
+
+(** Store<vec256_storage> / Store<vec512_storage> and From<x2>/From<x4> for the storage *)
+Theorem C13_sse_wide_storage :
+  (forall st, wf 32 st ->
+     map sse_unpack (x2_unpack st) = lanes16 st /\ wide16 2 (map sse_unpack (x2_unpack st)) /\
+     xn_into_storage (map sse_into_storage (map sse_unpack (x2_unpack st))) = st) /\
+  (forall st, wf 64 st ->
+     map sse_unpack (x4_unpack st) = lanes16 st /\ wide16 4 (map sse_unpack (x4_unpack st)) /\
+     xn_into_storage (map sse_into_storage (map sse_unpack (x4_unpack st))) = st) /\
+  (forall n v, wide16 n v -> xn_into_storage (map sse_into_storage v) = concat v) /\
+  (forall v, wide16 2 v -> map sse_unpack (x2_unpack (xn_into_storage (map sse_into_storage v))) = v) /\
+  (forall v, wide16 4 v -> map sse_unpack (x4_unpack (xn_into_storage (map sse_into_storage v))) = v).
+Proof. exact sse_wide_storage. Qed.
+
+(** StoreBytes of x2<W,G> over u32x4_sse2 (k = 4), u64x2_sse2 (8), u128x1_sse2 (16): 32 bytes *)
+Theorem C13_sse_x2_read_write_le_be : forall k s3, In k [4; 8; 16]%nat ->
+  (forall bs, length bs <> 32%nat ->
+     x2_read sse_read_le bs = Panic /\ x2_read (sse_read_be (bswap_of k s3)) bs = Panic) /\
+  (forall v n, n <> 32%nat ->
+     x2_write sse_write_le [] v n = Panic /\ x2_write (sse_write_be (bswap_of k s3)) [] v n = Panic) /\
+  (forall bs, wf 32 bs ->
+     (exists v, x2_read sse_read_le bs = Ok v /\ wide16 2 v /\ concat v = bytes_le k (read_le k bs)) /\
+     (exists v, x2_read (sse_read_be (bswap_of k s3)) bs = Ok v /\ wide16 2 v /\
+                concat v = bytes_le k (read_be k bs))) /\
+  (forall v, wide16 2 v ->
+     x2_write sse_write_le [] v 32 = Ok (write_le k (words_le k (concat v))) /\
+     x2_write (sse_write_be (bswap_of k s3)) [] v 32 = Ok (write_be k (words_le k (concat v)))) /\
+  (forall bs, wf 32 bs ->
+     obind (x2_read sse_read_le bs) (fun v => x2_write sse_write_le [] v 32) = Ok bs /\
+     obind (x2_read (sse_read_be (bswap_of k s3)) bs)
+           (fun v => x2_write (sse_write_be (bswap_of k s3)) [] v 32) = Ok bs).
+Proof. exact sse_x2_read_write_le_be. Qed.
+(** StoreBytes of x4<W>: 64 bytes *)
+Theorem C13_sse_x4_read_write_le_be : forall k s3, In k [4; 8; 16]%nat ->
+  (forall bs, length bs <> 64%nat ->
+     x4_read sse_read_le bs = Panic /\ x4_read (sse_read_be (bswap_of k s3)) bs = Panic) /\
+  (forall v n, n <> 64%nat ->
+     x4_write sse_write_le [] v n = Panic /\ x4_write (sse_write_be (bswap_of k s3)) [] v n = Panic) /\
+  (forall bs, wf 64 bs ->
+     (exists v, x4_read sse_read_le bs = Ok v /\ wide16 4 v /\ concat v = bytes_le k (read_le k bs)) /\
+     (exists v, x4_read (sse_read_be (bswap_of k s3)) bs = Ok v /\ wide16 4 v /\
+                concat v = bytes_le k (read_be k bs))) /\
+  (forall v, wide16 4 v ->
+     x4_write sse_write_le [] v 64 = Ok (write_le k (words_le k (concat v))) /\
+     x4_write (sse_write_be (bswap_of k s3)) [] v 64 = Ok (write_be k (words_le k (concat v)))) /\
+  (forall bs, wf 64 bs ->
+     obind (x4_read sse_read_le bs) (fun v => x4_write sse_write_le [] v 64) = Ok bs /\
+     obind (x4_read (sse_read_be (bswap_of k s3)) bs)
+           (fun v => x4_write (sse_write_be (bswap_of k s3)) [] v 64) = Ok bs).
+Proof. exact sse_x4_read_write_le_be. Qed.
+(** StoreBytes of u32x4x4_avx2 = x2<u32x4x2_avx2, G0>: 64 bytes *)
+Theorem C13_avx2_x2_read_write_le_be :
+  (forall bs, length bs <> 64%nat -> x2_read avx2_read_le bs = Panic /\ x2_read avx2_read_be bs = Panic) /\
+  (forall v n, n <> 64%nat -> x2_write avx2_write_le [] v n = Panic /\ x2_write avx2_write_be [] v n = Panic) /\
+  (forall bs, wf 64 bs ->
+     (exists v, x2_read avx2_read_le bs = Ok v /\ wide32 2 v /\ concat v = bytes_le 4 (read_le 4 bs)) /\
+     (exists v, x2_read avx2_read_be bs = Ok v /\ wide32 2 v /\ concat v = bytes_le 4 (read_be 4 bs))) /\
+  (forall v, wide32 2 v ->
+     x2_write avx2_write_le [] v 64 = Ok (write_le 4 (words_le 4 (concat v))) /\
+     x2_write avx2_write_be [] v 64 = Ok (write_be 4 (words_le 4 (concat v)))) /\
+  (forall bs, wf 64 bs ->
+     obind (x2_read avx2_read_le bs) (fun v => x2_write avx2_write_le [] v 64) = Ok bs /\
+     obind (x2_read avx2_read_be bs) (fun v => x2_write avx2_write_be [] v 64) = Ok bs).
+Proof. exact avx2_x2_read_write_le_be. Qed.
+
+(** the x86 copy of the soft.rs data-movement wrappers = the soft.rs model (Model/PpvSoft.v), for every
+    element type and element reader / writer; [o2s] converts between the two copies of [outcome] *)
+Theorem C13_x86_soft_wrappers_agree : forall (W : Type) (d : W),
+  (forall (v : list W) i, o2s (xn_extract v i) = PpvSoft.xn_extract v i) /\
+  (forall (v : list W) w i, o2s (xn_insert v w i) = PpvSoft.xn_insert v w i) /\
+  (forall (v : list W), xn_to_lanes v = PpvSoft.xn_to_lanes v /\ xn_from_lanes v = PpvSoft.xn_from_lanes v) /\
+  (forall (a b c e : list W), x4_transpose4 d a b c e = PpvSoft.x4_transpose4 d a b c e) /\
+  (forall (rd : list N -> outcome W) bs,
+     o2s (x2_read rd bs) = PpvSoft.x2_read (fun b => o2s (rd b)) bs /\
+     o2s (x4_read rd bs) = PpvSoft.x4_read (fun b => o2s (rd b)) bs) /\
+  (forall (wr : W -> nat -> outcome (list N)) v outlen,
+     o2s (x2_write wr d v outlen) = PpvSoft.x2_write d (fun w n => o2s (wr w n)) v outlen /\
+     o2s (x4_write wr d v outlen) = PpvSoft.x4_write d (fun w n => o2s (wr w n)) v outlen).
+Proof. exact x86_soft_moves_agree. Qed.
+Theorem C13_x86_soft_storage_agree :
+  (forall st : list N,
+     PpvSoft.x2_unpack [] (PpvSoftAssign.ok1 sse_unpack) (split_regs 2 16 st)
+       = PpvSoft.Ok (map sse_unpack (x2_unpack st)) /\
+     PpvSoft.x4_unpack [] (PpvSoftAssign.ok1 sse_unpack) (split_regs 4 16 st)
+       = PpvSoft.Ok (map sse_unpack (x4_unpack st))) /\
+  (forall v : list reg,
+     (length v = 2%nat ->
+      PpvSoft.omapo (@concat N) (PpvSoft.x2_into [] (PpvSoftAssign.ok1 sse_into_storage) v)
+      = PpvSoft.Ok (xn_into_storage (map sse_into_storage v))) /\
+     (length v = 4%nat ->
+      PpvSoft.omapo (@concat N) (PpvSoft.x4_into [] (PpvSoftAssign.ok1 sse_into_storage) v)
+      = PpvSoft.Ok (xn_into_storage (map sse_into_storage v)))).
+Proof. exact x86_soft_storage_agree. Qed.
+
+Print Assumptions C13_sse_wide_lanes_order.
+Print Assumptions C13_sse_wide_from_lanes_order.
+Print Assumptions C13_sse_wide_extract_insert.
+Print Assumptions C13_sse_wide_storage.
+Print Assumptions C13_sse_x2_read_write_le_be.
+Print Assumptions C13_sse_x4_read_write_le_be.
+Print Assumptions C13_avx2_x2_read_write_le_be.
+Print Assumptions C13_x86_soft_wrappers_agree.
+Print Assumptions C13_x86_soft_storage_agree.
